@@ -63,3 +63,9 @@ def fill(check, na):
           "timestamps, clock jumps).",
           "Arrival clock = scripted replacement of time.time() in the receiver module; clock jumps <= 4 h; report path behind a stub transport (no DTLS).",
           "DESIGN.md 3/C18")
+    check("C17", "metamorphic monitor: same program / arrival pattern and same fault decisions run with small and with wrapping sequence-number origins, observable traces compared; RFC 1982 oracle on the serial-number helpers (whole rows, all 2^32 16-bit pairs in the thorough tier)",
+          "Held on the paired runs produced: delivery traces with virtual timestamps, channel events, drain verdicts (SCTP), released "
+          "frames, PLI flags, NACK sets and report figures (RTP, un-shifted) are identical between origins 1000 and origins within "
+          "400 of the wrap. Serial comparisons agree with RFC 1982 on every pair examined.",
+          "Stream sequence origins are preset from outside on negotiated channels; origins are injected by replacing random32 in the SCTP module namespace.",
+          "DESIGN.md 3/C17")
